@@ -811,6 +811,21 @@ func (a *Analysis) ruleE1() {
 				r.Unk("E1", key, pos, "", "memory reached through %s leaves the analysed code: %s", g.Name(), s)
 				bad = true
 			}
+			// an object behind an interface- or function-typed variable: the module cannot write its
+			// memory directly, but every method call on it may change its state, which all callers share
+			if _, isIface := et.Underlying().(*types.Interface); isIface && !isErrorType(et) {
+				for _, ld := range a.Ef.Loads[g] {
+					if a.P.IsTestFunc(ld.Parent()) {
+						continue
+					}
+					for _, ref := range *ld.Referrers() {
+						if c, ok := ref.(ssa.CallInstruction); ok && c.Common().IsInvoke() && c.Common().Value == ssa.Value(ld) {
+							r.Bad("E1", key, a.P.InstrPos(c), "", "%s calls %s on the object held in package-level variable %s: a stateful object shared by all calls and goroutines", fnKey(ld.Parent()), c.Common().Method.Name(), g.Name())
+							bad = true
+						}
+					}
+				}
+			}
 			for _, u := range a.Ef.AddrUse[g] {
 				if !a.P.IsTestFunc(u.Parent()) {
 					r.Unk("E1", key, a.P.InstrPos(u), "", "the address of %s is taken", g.Name())
